@@ -1,46 +1,65 @@
 ------------------------------ MODULE Trace_AigerRef ------------------------------
 (***************************************************************************)
-(* Recorded runs of the real streaming AIGER parsers (ASCII and binary):   *)
-(* whenever a fault-free run ends without an error, the sequence of items  *)
-(* it returned must be exactly the reference reading AigerRef!Read of the  *)
-(* input - every number as written, every declared limit respected (C06).  *)
+(* Recorded fault-free runs of the real AIGER parsers (ASCII and binary,   *)
+(* the streaming section readers and the parse() convenience functions)    *)
+(* against the reference reading AigerRef!ReadLoc of the input:            *)
+(*   - a run that ends without an error: the reference accepts the input   *)
+(*     and the items returned are exactly the reference's - every number   *)
+(*     as written, every declared limit respected (C06);                   *)
+(*   - a run that ends with a syntax error: the reference rejects the      *)
+(*     input too (nothing well-formed is refused, C03), the position the   *)
+(*     error was raised at lies on the first offending token (C08), and    *)
+(*     the items handed out before it are the ones in front of that token. *)
 (* Other runs and other parsers in the same file are skipped.              *)
 (***************************************************************************)
 EXTENDS AigerRef, Json, IOUtils, TLC
 
 Rec == ndJsonDeserialize(IOEnv.TRACE)
-VARIABLES l, active, vis, binary, items, failed
-tvars == <<l, active, vis, binary, items, failed>>
+VARIABLES l, active, vis, binary, stream, ty, items, failed, gupos
+tvars == <<l, active, vis, binary, stream, ty, items, failed, gupos>>
 R == Rec[l]
 IsEv(e) == l <= Len(Rec) /\ R.ev = e /\ l' = l + 1
 NonItems == {<<"nohdr">>, <<"section">>, <<"nocomment">>}
+Aiger == {"aag", "aig", "aag_parse", "aig_parse"}
 
 TReset ==
   /\ IsEv("reset")
-  /\ active' = (R.kind = "parser" /\ R.parser \in {"aag", "aig"} /\ ~R.faulty)
-  /\ vis' = (IF R.kind = "parser" /\ R.parser \in {"aag", "aig"} THEN R.input ELSE <<>>)
-  /\ binary' = (R.kind = "parser" /\ R.parser = "aig")
-  /\ items' = <<>> /\ failed' = FALSE
+  /\ active' = (R.kind = "parser" /\ R.parser \in Aiger /\ ~R.faulty)
+  /\ vis' = (IF R.kind = "parser" /\ R.parser \in Aiger THEN R.input ELSE <<>>)
+  /\ binary' = (R.kind = "parser" /\ R.parser \in {"aig", "aig_parse"})
+  /\ stream' = (R.kind = "parser" /\ R.parser \in {"aag", "aig"})
+  /\ ty' = (IF R.kind = "parser" /\ R.parser \in Aiger THEN R.lit ELSE "usize")
+  /\ items' = <<>> /\ failed' = "" /\ gupos' = -1
 
 TRet ==
   /\ active /\ IsEv("pret")
   /\ items' = IF R.res \in {"ok", "some"} /\ R.item \notin NonItems THEN Append(items, R.item) ELSE items
-  /\ failed' = (failed \/ R.res \in {"err", "panic"})
-  /\ UNCHANGED <<active, vis, binary>>
+  /\ failed' = (IF failed # "" THEN failed ELSE IF R.res = "panic" THEN "panic" ELSE IF R.res = "err" THEN R.kind ELSE "")
+  /\ UNCHANGED <<active, vis, binary, stream, ty, gupos>>
+
+\* the position a syntax error is raised at (LineReader::give_up_at)
+TGu ==
+  /\ active /\ IsEv("gu")
+  /\ gupos' = (IF R.io THEN gupos ELSE R.pos)
+  /\ UNCHANGED <<active, vis, binary, stream, ty, items, failed>>
 
 TEnd ==
   /\ active /\ IsEv("pend")
-  /\ (~failed => \E r \in {Read(vis, binary)} : r[1] = "ok" /\ r[2] = items)
-  /\ UNCHANGED <<active, vis, binary, items, failed>>
+  /\ \E r \in {ReadLoc(vis, binary, ty)} :
+       /\ failed = "" => r[1] = "ok" /\ (stream => r[2] = items)
+       /\ failed = "syntax" => /\ r[1] = "bad"
+                               /\ gupos >= r[3] /\ gupos <= r[4]
+                               /\ (stream => r[2] = items)
+  /\ UNCHANGED <<active, vis, binary, stream, ty, items, failed, gupos>>
 
 TSkip ==
   /\ l <= Len(Rec) /\ l' = l + 1
   /\ \/ ~active /\ R.ev # "reset"
-     \/ active /\ R.ev \notin {"reset", "pret", "pend"}
-  /\ UNCHANGED <<active, vis, binary, items, failed>>
+     \/ active /\ R.ev \notin {"reset", "pret", "pend", "gu"}
+  /\ UNCHANGED <<active, vis, binary, stream, ty, items, failed, gupos>>
 
-TInit == l = 1 /\ active = FALSE /\ vis = <<>> /\ binary = FALSE /\ items = <<>> /\ failed = FALSE
-TNext == TReset \/ TRet \/ TEnd \/ TSkip
+TInit == l = 1 /\ active = FALSE /\ vis = <<>> /\ binary = FALSE /\ stream = FALSE /\ ty = "usize" /\ items = <<>> /\ failed = "" /\ gupos = -1
+TNext == TReset \/ TRet \/ TGu \/ TEnd \/ TSkip
 TSpec == TInit /\ [][TNext]_tvars
 
 Accepted ==
